@@ -63,23 +63,29 @@ fn parse_content(
                         Span::new(base_position + position, base_position + end_position),
                     )
                 })?;
-                let code = if first_char == 'x' {
-                    u32::from_str_radix(&entity[1..], 16)
-                } else {
-                    entity.parse::<u32>()
+                let invalid = || {
+                    ParseError::InvalidEntity(
+                        entity.to_string(),
+                        Span::new(base_position + position, base_position + end_position),
+                    )
                 };
-                let code = code.map_err(|_| {
-                    ParseError::InvalidEntity(
-                        entity.to_string(),
-                        Span::new(base_position + position, base_position + end_position),
-                    )
-                })?;
-                let c = std::char::from_u32(code).ok_or_else(|| {
-                    ParseError::InvalidEntity(
-                        entity.to_string(),
-                        Span::new(base_position + position, base_position + end_position),
-                    )
-                })?;
+                let (digits, radix) = if first_char == 'x' {
+                    (&entity[1..], 16)
+                } else {
+                    (entity, 10)
+                };
+                // only digits are allowed (the number parsers also accept a sign)
+                if digits.is_empty() || !digits.chars().all(|c| c.is_digit(radix)) {
+                    return Err(invalid());
+                }
+                let code = u32::from_str_radix(digits, radix).map_err(|_| invalid())?;
+                let c = std::char::from_u32(code).ok_or_else(invalid)?;
+                // a character reference must refer to an XML Char
+                // https://www.w3.org/TR/xml/#wf-Legalchar
+                if !matches!(c, '\u{9}' | '\u{A}' | '\u{D}' | '\u{20}'..='\u{D7FF}' | '\u{E000}'..='\u{FFFD}' | '\u{10000}'..='\u{10FFFF}')
+                {
+                    return Err(invalid());
+                }
                 result.push(c);
             } else {
                 match entity.as_str() {
